@@ -143,10 +143,10 @@ def plan(tier):
     q = tier == "quick"
     T = 300 if q else 1800
     if q:
-        pairs = sorted(set([(a, e) for a in range(21) for e in (1, 4)] + [(a, e) for a in (1, 5, 9, 12, 15, 19) for e in range(8)]))
+        pairs = sorted(set([(a, (1, 4, 2, 5, 0, 3, 7, 6)[a % 8]) for a in range(21)] + [((5, 0, 9, 10, 2, 12, 15, 19)[e], e) for e in range(8)]))
     else:
         pairs = [(a, e) for a in range(21) for e in range(8)]
-    p4, n4 = gen.specialise("c04_roundtrip.py", [("roundtrip", pairs)], "c08_gen4.py")
+    p4, n4 = gen.specialise("c04_roundtrip.py", [("roundtrip_layout", pairs), ("roundtrip_options", pairs)], "c08_gen4.py")
     conds = [Cond(p4, n, "main", T, "producer conformance: AAD, AL, key split, tag truncation, RSA padding, GCM-KW iv/tag, PBES2 salt/count, Concat-KDF Z and other-info (1PU: Ze||Zs, tag), raw DEFLATE (%s)" % n) for n in n4]
     conds += [Cond("c02_jwe.py", n, "main", T, "consumer: " + n) for n in ("compact_dir", "compact_kw", "compact_gcmkw", "compact_rsa", "compact_ecdh", "compact_ecdhkw", "compact_pbes2", "flattened_json")]
     conds += [Cond("c04_roundtrip.py", "witness", "witness", 300)]
